@@ -24,8 +24,9 @@ def quiet(f, *a, **k):
 
 
 class Comp:
-    def __init__(self, name, cls, mk, pool, call=None, blocks=True, three_d=True):
+    def __init__(self, name, cls, mk, pool, call=None, blocks=True, three_d=True, dense=None):
         self.name, self.cls, self.mk, self.pool = name, cls, mk, pool
+        self.dense = dense          # optional callable -> a large pool of structured neighbours (all low-weight patterns, all sign patterns, all messages)
         self.call = call or (lambda o, x: o(x))
         self.blocks = blocks
         self.three_d = three_d
@@ -57,7 +58,7 @@ def components(rng, quick):
             ("SystematicLinearBlockCodeEncoder", lambda: E.SystematicLinearBlockCodeEncoder(torch.tensor([[1., 1, 0], [0, 1, 1], [1, 0, 1]]), information_set=[4, 0, 2]))]
     for nm, mk in encs:
         k = int(mk().code_dimension)
-        C.append(Comp(nm, nm, mk, enc_pool(k)))
+        C.append(Comp(nm, nm, mk, enc_pool(k), dense=(lambda k=k: [bitsv(v, k) for v in (range(1 << k) if k <= 6 else rng.sample(range(1 << k), 64))])))
         C.append(Comp(nm + ".inverse_encode", nm, mk, "codewords", call=lambda o, x: (lambda r: r[0] if isinstance(r, tuple) else r)(o.inverse_encode(x))))
     C.append(Comp("PolarCodeEncoder", "PolarCodeEncoder", lambda: quiet(E.PolarCodeEncoder, 4, 8), enc_pool(4), three_d=False))
     # hard decoders: members are received words (codeword, one error, two errors, random word)
@@ -74,22 +75,48 @@ def components(rng, quick):
         return out
     ham = E.HammingCodeEncoder(3)
     bch = E.BCHCodeEncoder(4, 5)
-    C.append(Comp("SyndromeLookupDecoder/Hamming(7,4)", "SyndromeLookupDecoder", lambda: D.SyndromeLookupDecoder(E.HammingCodeEncoder(3)), recv_pool(ham)))
-    C.append(Comp("BruteForceMLDecoder/Hamming(7,4)", "BruteForceMLDecoder", lambda: D.BruteForceMLDecoder(E.HammingCodeEncoder(3)), recv_pool(ham)))
-    C.append(Comp("BerlekampMasseyDecoder/BCH(15,7)", "BerlekampMasseyDecoder", lambda: D.BerlekampMasseyDecoder(E.BCHCodeEncoder(4, 5)), recv_pool(bch)))
+
+    def ball(enc, w):
+        """All words within Hamming distance w of one codeword: neighbours that share part of their syndrome."""
+        import itertools as it
+        def f():
+            k, n = int(enc.code_dimension), int(enc.code_length)
+            c = enc(bitsv(rng.randrange(1 << k), k).unsqueeze(0))[0].clone()
+            out = []
+            for t in range(w + 1):
+                for pos in it.combinations(range(n), t):
+                    v = c.clone()
+                    for p_ in pos:
+                        v[p_] = 1 - v[p_]
+                    out.append(v)
+            return out
+        return f
+
+    def signs(n, cap=64):
+        def f():
+            mags = [1.0 + 0.5 * j for j in range(n)]
+            pats = list(range(1 << n))
+            if len(pats) > cap:
+                pats = rng.sample(pats, cap)
+            return [torch.tensor([(-m if (v >> j) & 1 else m) for j, m in enumerate(mags)]) for v in pats]
+        return f
+    C.append(Comp("SyndromeLookupDecoder/Hamming(7,4)", "SyndromeLookupDecoder", lambda: D.SyndromeLookupDecoder(E.HammingCodeEncoder(3)), recv_pool(ham), dense=ball(ham, 2)))
+    C.append(Comp("BruteForceMLDecoder/Hamming(7,4)", "BruteForceMLDecoder", lambda: D.BruteForceMLDecoder(E.HammingCodeEncoder(3)), recv_pool(ham), dense=ball(ham, 2)))
+    C.append(Comp("BerlekampMasseyDecoder/BCH(15,7)", "BerlekampMasseyDecoder", lambda: D.BerlekampMasseyDecoder(E.BCHCodeEncoder(4, 5)), recv_pool(bch), dense=ball(bch, 2)))
+    C.append(Comp("SyndromeLookupDecoder/BCH(15,7)", "SyndromeLookupDecoder", lambda: D.SyndromeLookupDecoder(E.BCHCodeEncoder(4, 5)), recv_pool(bch), dense=ball(bch, 2)))
     C.append(Comp("ReedMullerDecoder(hard)/RM(1,3)", "ReedMullerDecoder", lambda: D.ReedMullerDecoder(E.ReedMullerCodeEncoder(1, 3)), recv_pool(E.ReedMullerCodeEncoder(1, 3))))
     # soft decoders: members are LLR vectors
 
     def llr_pool(n):
         return [torch.tensor([rng.choice([-1.0, 1.0]) * rng.randint(1, 9) for _ in range(n)]) for _ in range(3)] + [torch.tensor([1.0 + j for j in range(n)])]
-    C.append(Comp("WagnerSoftDecisionDecoder/SPC(4)", "WagnerSoftDecisionDecoder", lambda: D.WagnerSoftDecisionDecoder(E.SingleParityCheckCodeEncoder(4)), llr_pool(5)))
-    C.append(Comp("BeliefPropagationDecoder/LDPC(3x6)", "BeliefPropagationDecoder", lambda: D.BeliefPropagationDecoder(E.LDPCCodeEncoder(check_matrix=H6), bp_iters=4), llr_pool(6)))
-    C.append(Comp("MinSumLDPCDecoder/LDPC(3x6)", "MinSumLDPCDecoder", lambda: D.MinSumLDPCDecoder(E.LDPCCodeEncoder(check_matrix=H6), bp_iters=4), llr_pool(6)))
+    C.append(Comp("WagnerSoftDecisionDecoder/SPC(4)", "WagnerSoftDecisionDecoder", lambda: D.WagnerSoftDecisionDecoder(E.SingleParityCheckCodeEncoder(4)), llr_pool(5), dense=signs(5)))
+    C.append(Comp("BeliefPropagationDecoder/LDPC(3x6)", "BeliefPropagationDecoder", lambda: D.BeliefPropagationDecoder(E.LDPCCodeEncoder(check_matrix=H6), bp_iters=4), llr_pool(6), dense=signs(6)))
+    C.append(Comp("MinSumLDPCDecoder/LDPC(3x6)", "MinSumLDPCDecoder", lambda: D.MinSumLDPCDecoder(E.LDPCCodeEncoder(check_matrix=H6), bp_iters=4), llr_pool(6), dense=signs(6)))
     C.append(Comp("BeliefPropagationDecoder(soft)/Hamming(7,4)", "BeliefPropagationDecoder", lambda: D.BeliefPropagationDecoder(E.HammingCodeEncoder(3), bp_iters=10),
                   llr_pool(7) + [torch.tensor([0.5, -1.5, -2.0, 2.5, 2.0, -1.0, -1.5])], call=lambda o, x: o(x, return_soft=True)[1]))
     C.append(Comp("MinSumLDPCDecoder(soft)/LDPC(3x6)", "MinSumLDPCDecoder", lambda: D.MinSumLDPCDecoder(E.LDPCCodeEncoder(check_matrix=H6), bp_iters=6), llr_pool(6),
                   call=lambda o, x: o(x, return_soft=True)[1]))
-    C.append(Comp("SuccessiveCancellationDecoder/Polar(8,4)", "SuccessiveCancellationDecoder", lambda: D.SuccessiveCancellationDecoder(quiet(E.PolarCodeEncoder, 4, 8)), llr_pool(8), three_d=False))
+    C.append(Comp("SuccessiveCancellationDecoder/Polar(8,4)", "SuccessiveCancellationDecoder", lambda: D.SuccessiveCancellationDecoder(quiet(E.PolarCodeEncoder, 4, 8)), llr_pool(8), three_d=False, dense=signs(8)))
     C.append(Comp("BeliefPropagationPolarDecoder/Polar(8,4)", "BeliefPropagationPolarDecoder",
                   lambda: quiet(D.BeliefPropagationPolarDecoder, quiet(E.PolarCodeEncoder, 4, 8, frozen_zeros=True)), llr_pool(8), three_d=False))
     # memoryless modems: members are bit groups (modulators) / received symbols (demodulators)
@@ -221,8 +248,47 @@ def run(run):
                 run.case((comp.name, tuple(batch), lay, ci, hi % 3 == 0), nontrivial=len(batch) >= 2)
             if comp.three_d and hi % 10 == 0:
                 emit(do_call(comp, objs[0], [b for b in h[0][0] if b <= len(pool)] or [1], "3d", pool, ids), True)
+    # dense pools: many structured neighbours (all low-weight error patterns around a codeword, all sign patterns, all messages), paired at random in
+    # one batch and fed one at a time to a long-lived object - a result that depends on part of the input only (a cache keyed on a partial
+    # syndrome, a shared early stop) shows when two neighbours that agree on that part meet
+    npairs, nseq = (250, 150) if quick else (3000, 1500)
+    for comp in comps:
+        if comp.dense is None:
+            continue
+        try:
+            pool = comp.dense()
+            o1 = comp.mk()
+        except Exception as ex:
+            run.violate(comp.cls, "construction_raised", {"component_name": comp.name}, {"error": repr(ex)[:200]})
+            continue
+        dcomp = Comp(comp.name + "/dense", comp.cls, comp.mk, pool, call=comp.call, blocks=comp.blocks, three_d=comp.three_d)
+        ids = Ids()
+        tid += 1
+        evs.append({"ev": "Component", "tid": tid, "name": dcomp.name, "pool": len(pool)})
+        meta.append((dcomp, None))
+
+        def emit2(e, may_reject):
+            nonlocal tid
+            tid += 1
+            e.update({"ev": "Call", "tid": tid, "may_reject": may_reject})
+            evs.append(e)
+            meta.append((dcomp, e))
+        fresh = comp.mk()
+        for m in range(1, len(pool) + 1):
+            emit2(do_call(dcomp, comp.mk() if m % 16 == 1 else fresh, [m], "single", pool, ids), False)       # references from (nearly) fresh objects
+            if m % 16 == 1:
+                fresh = comp.mk()
+        for j in range(npairs):
+            a, b = rng.randrange(1, len(pool) + 1), rng.randrange(1, len(pool) + 1)
+            lay = "blocks" if (comp.blocks and j % 3 == 2) else "rows"
+            emit2(do_call(dcomp, o1, [a, b], lay, pool, ids), True)
+            run.case((dcomp.name, a, b, lay), nontrivial=a != b)
+        for j in range(nseq):
+            a = rng.randrange(1, len(pool) + 1)
+            emit2(do_call(dcomp, o1, [a], "rows", pool, ids), True)
+            run.case((dcomp.name, "seq", j, a), nontrivial=True)
     run.log("%d components, %d events" % (len(comps), len(evs)))
-    mism = tv.validate(run, "Trace_Purity", evs, name="TV C20", timeout=3000, heap="12g")
+    mism = tv.validate_sharded(run, "Trace_Purity", evs, (lambda e: e["ev"] == "Component"), name="TV C20", max_events=100000, jobs=8)
     rejected = {}
     for (comp, e) in meta:
         if e and e["raised"]:
